@@ -219,11 +219,20 @@ impl Type {
             Type::Mut(element) => Some(element.as_ref().clone()),
             Type::Multi(multi) => {
                 let mut iter = multi.iter();
-                let first = iter.next().unwrap().element_type()?;
+                let first = iter.next().unwrap().mut_element_type()?;
                 iter.map(Self::mut_element_type)
                     .try_fold(first, |acc, curr| Some(acc | curr?))
             }
             _ => None,
+        }
+    }
+
+    /// Returns true if a value of type `value` can be stored in every mut that self may be
+    pub fn can_store(&self, value: &Type) -> bool {
+        match self {
+            Self::Mut(element) => value.matches(element),
+            Self::Multi(multi) => multi.iter().all(|var_type| var_type.can_store(value)),
+            _ => false,
         }
     }
 
